@@ -9,6 +9,62 @@ Q = "/venv/bin/python /verif/fv/check.py {id} --tier quick"
 T = "/venv/bin/python /verif/fv/check.py {id} --tier thorough"
 
 CLAIMS = {
+    "C09": dict(
+        technique="dataflow queries on the validity gate + congruence normal form of the prediction covariance (static; structural necessary clauses only)",
+        engine="E6 dataflow + E3 matform",
+        text="Static, partial: only the structural necessary conditions are decided -- the eigenvalue threshold and the symmetry tolerance of "
+             "assert_valid_covariance data-depend on the size/magnitude of the matrix (the property's own failure mode is a scale-free gate), the "
+             "prediction covariance is a sum of congruences X.A.X^T of the prior and the noise (PSD by construction, singular Jacobians included), "
+             "and the filter has no second gate.",
+        note="NOT decided (outside static reach): the update step P - K.H.P staying PSD, accumulation of rounding over histories, symmetry drift, "
+             "conditioning. The claim is restricted to GATE-REL / SYM-REL / PSD-FORM / GATE-SITES.",
+        ref="3/C09"),
+    "C15": dict(
+        technique="order-taint analysis over the abstract-interpretation iteration inventory + purity of generator modules (static)",
+        engine="E2 layout + genlayout",
+        text="Static: every loop / comprehension that contributes to generated C++ text iterates a canonical sorted layout (dict / set / items / values "
+             "iteration only in guards, messages or under sorted()); the Python layout lists are sorted by name; every sorted() key is total and "
+             "hash-free; the generator modules keep no module-level mutable state (bytes do not depend on earlier generations); no set/dict repr "
+             "reaches generated text; a built-in synthetic order leak must be reported on every run.",
+        note="Trusted base: sympy cse/simplify/ccode are deterministic functions of their (ordered) input; names are distinct strings.",
+        ref="3/C15"),
+    "C16": dict(
+        technique="def-use resolved structural rules on the adapter's row consumption and call sequence + normal form of the NIS + effect analysis (static)",
+        engine="AST rules + E3 matform + E2 event log + E6 effects",
+        text="Static: transform compiles the filter from exactly the estimator's parameters, consumes each row as [controls] then per sensor in sorted key "
+             "order that sensor's readings (prefix slices, remainder threaded), predicts once with the fixed step and updates sensors in that order "
+             "threading (state, covariance), appends y^T.Inv(S).y from the records of the same key, which sensor_model refreshes unconditionally; "
+             "mahalanobis is the flattened output guarded against negatives; score is the documented combination; none of them changes a parameter.",
+        note="Not decided: numeric non-negativity, scikit-learn's behaviour. Some sub-rules compare normalised statement text of the adapter; an unfamiliar "
+             "but equivalent restructuring is reported as ANALYSIS-ERROR / violation of the structural rule and needs triage.",
+        ref="3/C16"),
+    "C17": dict(
+        technique="table agreement + branch-structure + writer/reader agreement via the abstract-interpretation iteration inventory (static)",
+        engine="AST rules + E2 layout",
+        text="Static: the four parameter tables agree and parameters are stored unmodified (clone contract); set_params applies each key by setattr / a "
+             "fresh per-key Config rebuild / raise; the scoring vector's writer and reader enumerate the same ordered segments and the reader consumes "
+             "exactly those prefixes, changes only the two noise maps and floors process noise positive; fit raises MinimizationFailure before the "
+             "final set_params, takes the final parameters from the reader, and refuses only None.",
+        note="Not decided: finiteness of the optimum, other exceptions escaping fit for some data (needs the optimiser's path).",
+        ref="3/C17"),
+    "C18": dict(
+        technique="declared-transition graph extraction, typestate (who may construct), BFS discipline and grid/export dataflow rules (static)",
+        engine="AST rules",
+        text="Static: the declared graph (state ids, available_transitions, return annotations) is the chain Start -> Symbolic_Model -> Fit_Model; states "
+             "are constructed only by their predecessor's declared transition with a fresh history list; search is a FIFO BFS with path extension, goal "
+             "test, type guard and exhaustion raise; fitting refuses too-small data before splitting, searches exactly the supplied grid, exports the "
+             "best estimator with its config; ConfigView lets given parameters override defaults; set_params applies every key.",
+        note="Not decided: what GridSearchCV selects. Shortest paths follow from BFS + FIFO on the extracted graph.",
+        ref="3/C18"),
+    "C19": dict(
+        technique="def-use inlining of the reference model into terms and wiring comparison modulo commutativity (static; necessary conditions)",
+        engine="AST term rules",
+        text="Static, partial: the wiring of the strapdown model is decided -- one composed orientation (state x calibration) rotates gyro and bias-corrected "
+             "specific force, gravity is added after the rotation, the orientation step is q + 0.5*q.mul(Q(0,gyro))*dt in that operand order, and each "
+             "velocity / position entry is the dt-integral of its own axis; symbols sit in the sets the property names.",
+        note="NOT decided: the polynomial identities themselves (signs inside quaternion products, sympy's to_rotation_matrix / integrate) -- they need "
+             "computer algebra on the built expressions, i.e. execution or a solver, outside this family. The last sentence of the property is C01.",
+        ref="3/C19"),
     "C13": dict(
         technique="structural rules on the named-array classes + layout abstract interpretation of both back-ends + container-use classification (static)",
         engine="E2 layout + genlayout + AST rules",
